@@ -16,7 +16,7 @@ R02.7 UTF-16 / UTF-32 deciders agree with the oracle (part of R02.2's class enum
 import itertools
 import re
 
-from ..interp import Interp, Hooks
+from ..interp import Interp, Hooks, Budget
 from ..state import IntV, PtrV, NULL
 from ..terms import Lin, ZERO
 from .. import cquery
@@ -230,6 +230,77 @@ def st_cursor_at_end(it):
 
 
 SUBST = {1: None, 2: 0xFFFD, 4: 0xFFFD}
+
+
+def short_inputs(run, m, F, E, pairs):
+    """R02.7: substitute_invalid never fails.  Each converter that takes a mode is interpreted exactly (no abstraction of the loop) on
+    every input of one and of two units under substitute_invalid: every path must return the success code (Latin-1 output without
+    the substitute flag may still report a character it cannot represent)."""
+    modes = dict(c03.modes(m) or [])
+    errs = m.enums.get('_ST_PRIVATE::conversion_error_t', {})
+    if 'substitute_invalid' not in modes:
+        return 0
+
+    class XH(Hooks):
+        unroll = 4
+        widen_on_entry = False
+        max_depth = 8
+        max_paths = 8000
+    n = 0
+    for p in pairs:
+        C = p.C
+        if len(C.params) < 4 or getattr(p, 'cargs', None):
+            continue
+        eb_src = conv.elt_bytes(C.params[1]['ty'])
+        has_flag = len(C.params) >= 5
+        subject = '%s <- %s' % (p.tgt, p.src)
+        for fl in ([0, 1] if has_flag else [0]):
+            allowed = set([0])
+            if p.tgt == 'latin_1' and fl == 0:
+                allowed.add(errs.get('latin1_out_of_range'))
+            for size in (1, 2):
+                n += 1
+                I = Interp(m, F, E, XH())
+                st = conv.base_state(eb_src)
+                st.rng['n'] = (size, size)
+                st.rng['cur'] = (0, 0)
+                disc = 'substitute_invalid%s / %d unit(s)' % ('/substitute_out_of_range=%d' % fl if has_flag else '', size)
+                try:
+                    outs = I.run(I.start(C, c03.conv_args(I, C, modes['substitute_invalid'], fl, eb_src), st))
+                except Budget as e:
+                    run.ob('R02.7', subject, None, 'not interpreted exactly: %s' % e, disc=disc, loc=fn_loc(C))
+                    continue
+                bad, und = [], []
+                nret = 0
+                for o in outs:
+                    if o.kind == 'ret':
+                        nret += 1
+                        v = o.val
+                        if not isinstance(v, IntV):
+                            und.append('return value not tracked')
+                            continue
+                        lo, hi = o.st.range(v.lin)
+                        if lo == hi and lo in allowed:
+                            continue
+                        ins = [Lin.atom(a) for a in o.st.rng if isinstance(a, str) and re.match(r'^IN\.\d+$', a)]
+                        env = o.st.find_model(ins + [v.lin], lambda vals: vals[-1] not in allowed)
+                        if env is not None:
+                            names = dict((v2, k2) for k2, v2 in errs.items())
+                            from . import own
+                            bad.append('reports %s although the caller asked for substitution; witness input %s' %
+                                       (names.get(lo, 'code %s' % (lo if lo == hi else '?')), ', '.join(
+                                           'unit[%d]=0x%X' % (int(a[3:]) // eb_src, v3) for a, v3 in sorted(env.items()) if isinstance(a, str) and a.startswith('IN.')) or own.fmt_env(env) or '(any)'))
+                        else:
+                            und.append('return value %r not decided to be the success code' % (v.lin,))
+                    elif o.kind == 'abort':
+                        pass        # totality is C03's subject
+                    elif o.kind not in ('unreachable',):
+                        und.append('a path ends in %s' % o.kind)
+                if not nret:
+                    und.append('no returning path')
+                run.ob('R02.7', subject, False if bad else (None if und else True), bad[0] if bad else und[0] if und else
+                       'success on all %d path(s)' % nret, disc=disc, loc=fn_loc(C))
+    return n
 
 
 def policy(run, m, F, E, pairs):
@@ -447,6 +518,7 @@ def check(run):
     run.floor('UTF-8 classes x deciders', deciders(run, m, F, E), 40)
     pairs = conv.discover(m, F, run, 'R02.1')
     run.floor('converter x class x mode runs', policy(run, m, F, E, pairs), 150)
+    run.floor('exact short-input runs under substitute_invalid', short_inputs(run, m, F, E, pairs), 10)
     run.floor('error codes', error_mapping(run, m, F, E), 6)
     run.floor('set(char_buffer) dispatch cases', set_dispatch(run, m, F, E), 6)
     run.floor('default arguments spelled ST_DEFAULT_VALIDATION', defaults(run, m), 100)
